@@ -973,19 +973,20 @@ fn opt_out_str(r: &Result<Option<DecodedKey>, String>) -> String {
 /// held), and the key itself may have been pressed before at another level (typematic repeat,
 /// decode caches). The level reached is computed by the modifier model; only plain levels
 /// (no Ctrl, no left Alt, CapsLock off) are generated.
-fn c03_hist_case(run: &mut Run, l: usize, h: &[(KeyCode, KeyState)], k: KeyCode) {
+/// Returns whether the case was judged (an unconstrained cell is executed but not judged).
+fn c03_hist_case(run: &mut Run, l: usize, h: &[(KeyCode, KeyState)], k: KeyCode) -> bool {
     let table = lt::table(l);
-    let Some(cell) = table.iter().find(|c| c.key == k) else { return };
+    let Some(cell) = table.iter().find(|c| c.key == k) else { return false };
     run.eval(1);
     let (got, model) = press_after(l, h, k, HandleControl::Ignore);
     let fa = facts(model);
     if fa.ctrl || fa.caps || model & M_LALT != 0 || (fa.shift && fa.altgr) {
-        return;
+        return false;
     }
     let (want, lvl) = if fa.altgr {
         match &cell.altgr {
             AltGrWant::Char(c) => (Want::OneOf(vec![*c]), "AltGr"),
-            _ => return,
+            _ => return false,
         }
     } else if fa.shift {
         (cell.shift.clone(), "shifted")
@@ -993,11 +994,11 @@ fn c03_hist_case(run: &mut Run, l: usize, h: &[(KeyCode, KeyState)], k: KeyCode)
         (cell.base.clone(), "unshifted")
     };
     if matches!(want, Want::Any) {
-        return;
+        return false;
     }
     // an AltGr character is required only if the layout has that level at all (C12's business otherwise)
     if fa.altgr && out(l, Form::Bare, k, M_NUMLOCK, HandleControl::Ignore) == out(l, Form::Bare, k, M_NUMLOCK | M_RALT, HandleControl::Ignore) {
-        return;
+        return false;
     }
     let ok = matches!(&got, Ok(Some(DecodedKey::Unicode(c))) if want.accepts(*c));
     if !ok {
@@ -1007,6 +1008,7 @@ fn c03_hist_case(run: &mut Run, l: usize, h: &[(KeyCode, KeyState)], k: KeyCode)
             case: hist_case("C03", l, h, k, HandleControl::Ignore),
         });
     }
+    true
 }
 
 fn c03_histories(run: &mut Run) {
@@ -1045,15 +1047,16 @@ fn c03_histories(run: &mut Run) {
                             h.extend(enter2.iter().cloned());
                             h.extend(leave1.iter().cloned());
                         }
-                        c03_hist_case(run, l, &h, k);
-                        n += 1;
+                        if c03_hist_case(run, l, &h, k) {
+                            n += 1;
+                        }
                     }
                 }
             }
         }
     }
     run.nontrivial_enum(n);
-    run.part("levels_selected_by_event_histories", json!({"cases": n, "shape": "enter level 1, press the key (release it / keep it held / repeat it), move to level 2 (leave-then-enter or enter-then-leave), press the key"}));
+    run.part("levels_selected_by_event_histories", json!({"judged_cases": n, "shape": "enter level 1, press the key (release it / keep it held / repeat it), move to level 2 (leave-then-enter or enter-then-leave), press the key"}));
     let hs: Hist = vec![(KeyCode::Q, Down), (KeyCode::Q, Down), (KeyCode::RAltGr, Down)];
     run.sample(|| json!({"layer":"levels-by-history","layout":"De105Key","history":hist_text(&hs),"then":"Q↓","observed":opt_out_str(&press_after(L_DE, &hs, KeyCode::Q, HandleControl::Ignore).0)}));
 }
@@ -1183,10 +1186,10 @@ fn c10_histories(run: &mut Run) {
     run.part("event_histories", json!({"sequences": seqs.len(), "cases": n}));
 }
 
-fn c11_hist_case(run: &mut Run, l: usize, bits: u16, k: KeyCode, mode: HandleControl) {
+fn c11_hist_case(run: &mut Run, l: usize, bits: u16, k: KeyCode, mode: HandleControl) -> bool {
     let canon = canonical(bits, is_numpad(k));
     if canon == bits {
-        return;
+        return false;
     }
     run.eval(1);
     let (ha, hb): (Hist, Hist) = (mm::witness_history(bits), mm::witness_history(canon));
@@ -1199,6 +1202,7 @@ fn c11_hist_case(run: &mut Run, l: usize, bits: u16, k: KeyCode, mode: HandleCon
             case: json!({"kind":"layout_history","check":"C11","layout":LAYOUT_NAMES[l],"mods":bits,"key":key_name(k),"mode":mode_name(mode),"history":hist_json(&ha),"text":hist_text(&ha)}),
         });
     }
+    true
 }
 
 fn c11_histories(run: &mut Run) {
@@ -1208,8 +1212,9 @@ fn c11_histories(run: &mut Run) {
             if mm::is_modifier_key(k) { continue; }
             for mode in MODES {
                 for bits in 0..N_MODS {
-                    c11_hist_case(run, l, bits, k, mode);
-                    n += 1;
+                    if c11_hist_case(run, l, bits, k, mode) {
+                        n += 1;
+                    }
                 }
             }
         }
@@ -1321,12 +1326,12 @@ pub fn replay(run: &mut Run, case: &Value) -> bool {
             let h = hist_from_json(&case["history"]);
             let mode = mode_by_name(case["mode"].as_str().unwrap_or("Ignore")).unwrap_or(HandleControl::Ignore);
             match case["check"].as_str().unwrap_or("") {
-                "C03" => c03_hist_case(run, l, &h, k),
+                "C03" => { c03_hist_case(run, l, &h, k); }
                 "C09" => { if let Some(c) = letter_of(l, k) { c09_hist_case(run, l, &h, k, mode, c) } }
                 "C10" => c10_hist_case(run, l, &h, k, mode, cased_letter(l, k)),
                 "C15" => c15_hist_case(run, l, &h, k, mode),
                 "C16" => c16_hist_case(run, l, &h, k, mode),
-                "C11" => c11_hist_case(run, l, case["mods"].as_u64().unwrap_or(0) as u16, k, mode),
+                "C11" => { c11_hist_case(run, l, case["mods"].as_u64().unwrap_or(0) as u16, k, mode); }
                 _ => return false,
             }
             true
